@@ -215,7 +215,12 @@ def power_profiles(rng, nz, z, kind=None):
     kk = rng.uniform(0.2, 2.0)
     K = kk * (0.1 + zr) ** rng.uniform(0.5, 1.2)
     ax, ay = rng.uniform(0.5, 2.0, size=2)
-    return (u, v, ax * K, ay * K, K.copy())
+    Kx, Ky = ax * K, ay * K
+    if rng.random() < 0.5:
+        # the anisotropy ratio Kx/Ky itself depends on height (user-supplied profiles; no closure produces this)
+        Kx = Kx * (0.3 + zr) ** rng.uniform(-0.6, 0.6)
+        Ky = Ky * (0.3 + zr) ** rng.uniform(-0.6, 0.6)
+    return (u, v, Kx, Ky, K.copy())
 
 
 def uniform_profiles(rng, nz):
